@@ -156,6 +156,22 @@ pub fn generate_c04(opts: &Opts, sink: &mut CaseSink) {
             sink.wrap = Some(("KJob".into(), "C01".into()));
         }
     }
+    // forward connections that NARROW across hosts: the consumers of a host receive from
+    // different remote hosts each (Limited(k) filled host by host), so a demultiplexer serves
+    // receivers with different sets of remote producers
+    {
+        let layouts: Vec<(Vec<u64>, u64)> = if opts.thorough {
+            vec![(vec![2, 2, 2], 3), (vec![2, 2, 2], 2), (vec![1, 2, 2], 2), (vec![3, 1, 2], 2), (vec![2, 2], 3), (vec![3, 3, 3], 4), (vec![2, 1, 1], 3), (vec![4, 2, 2], 3)]
+        } else {
+            vec![(vec![2, 2, 2], 3), (vec![3, 1, 2], 2), (vec![2, 2], 3)]
+        };
+        for (cores, k) in layouts {
+            let src = Pipe::Src(true, big_data(&mut rng, 120));
+            let p = Pipe::Op(Box::new(Pipe::Op(Box::new(Pipe::Op(Box::new(src), Op1::MapAdd(1))), Op1::Repl(pipe::Repl::Limited(k)))), Op1::MapAdd(2));
+            sink.count("narrowing_forward_multi_host");
+            emit(sink, &p, &[(Deploy::Local(1), Mode::Fixed(1024)), (Deploy::Remote(cores), pipe::random_mode(&mut rng))], Duration::from_secs(40));
+        }
+    }
     // multi-host graphs (demultiplexers), incl. layouts with more than 16 producers per input
     sink.wrap = None;
     for i in 0..(if opts.thorough { 120 } else { 16 }) {
@@ -174,7 +190,7 @@ pub fn generate_c04(opts: &Opts, sink: &mut CaseSink) {
         }
     }
 }
-pub const RULE_C04: &str = "the engineered two-host hash join of known finding F13 (2 + 20 cores, fixed(2) batches; thorough: also its control without the early flush and a 2 + 14 core layout), then whole jobs on the real engine: empty and tiny inputs, inputs of 120..400 elements with batch size 1/3 (more than the total channel capacity: real back-pressure), split diamonds closed by merge and by outer join, broadcast joins, merges with an empty side, replay loops with internal shuffles, plus random pipelines; local 1..8 and 2..3-host deployments; watchdog 90 s; for every acyclic pipeline and 40 (thorough 300) further random ones the execution graph derived by the real scheduler on local(1..8), checked against dag_okb (premise of C04_dag_*); the same on 2..3-host layouts (16, thorough 120 graphs; every fourth on 3 x 6 cores) against mstruct_okb and the capacity condition (premise of C04_multi_host_*). A run counts as good only if every host returned, exactly one sink handle held a result and the result is complete. Non-trivial: >=2 input elements and >=2 runs; distinct = distinct case terms";
+pub const RULE_C04: &str = "the engineered two-host hash join of known finding F13 (2 + 20 cores, fixed(2) batches; thorough: also its control without the early flush and a 2 + 14 core layout), then whole jobs on the real engine: empty and tiny inputs, inputs of 120..400 elements with batch size 1/3 (more than the total channel capacity: real back-pressure), split diamonds closed by merge and by outer join, broadcast joins, merges with an empty side, forward connections narrowing to Limited(k) replicas across 2..3 hosts (consumers of one host fed by different remote hosts), replay loops with internal shuffles, plus random pipelines; local 1..8 and 2..3-host deployments; watchdog 90 s; for every acyclic pipeline and 40 (thorough 300) further random ones the execution graph derived by the real scheduler on local(1..8), checked against dag_okb (premise of C04_dag_*); the same on 2..3-host layouts (16, thorough 120 graphs; every fourth on 3 x 6 cores) against mstruct_okb and the capacity condition (premise of C04_multi_host_*). A run counts as good only if every host returned, exactly one sink handle held a result and the result is complete. Non-trivial: >=2 input elements and >=2 runs; distinct = distinct case terms";
 
 // ---------------------------------------------------------------- C10
 /// Loops with a side input: a join inside the loop body whose loop side changes from round to
